@@ -1517,12 +1517,13 @@ class C03(Prop):
     # counted but not demanded)
     REQUIRED = {"const-write", "const-compound", "const-incr", "rvalue-write", "rvalue-incr", "call-write", "literal-write", "out-rvalue", "out-const", "inout-literal",
                 "arity-more", "arity-less", "arg-struct", "arg-void", "ret-struct", "ret-void-value", "ret-missing-value", "const-member-write", "const-param-write",
-                "const-array-write", "swizzle-repeat-write", "cbuffer-write", "static-const-global-write"}
+                "const-array-write", "swizzle-repeat-write", "cbuffer-write", "static-const-global-write", "out-other-scalar", "out-other-vector", "inout-other-vector",
+                "out-wider-vector", "out-member-of-const", "out-swizzle-repeat", "out-enum-for-int"}
     assumptions = [
         "theorems are about the checker `wt` (coq/model/IRType.v), the specification of well-typed IR: a passed check means every node's type is the one derived bottom-up, every operand has exactly the required type, writes go to lvalues whose path goes through nothing const, calls match their signature, returns and initialisers match; there is no model of the elaborator, so 'every accepted program passes' is observed (the extracted checker runs on the IR of every program the harness type checks), not proved",
         "each node of the dump carries the type Expression::get_type answers (its assertions are caught and reported as IRFAULT); nodes the checker does not model (object members, matrix swizzles, mesh / make-signed intrinsics) are taken at that type, their operands are still checked",
         "conditions of if / while / for are not required to be bool and aggregate initialisers are only checked element by element (the property's list does not name them)",
-        "rejection: a well-typed generated program plus one function with a single injected violation must be rejected; 23 violation kinds are demanded (writes to const / non-lvalues in every form, out / inout arguments, arity, unconvertible arguments, wrong returns), 11 further kinds are counted only",
+        "rejection: a well-typed generated program plus one function with a single injected violation must be rejected; 30 violation kinds are demanded (writes to const / non-lvalues in every form, out / inout arguments, arity, unconvertible arguments, wrong returns), 11 further kinds are counted only",
     ]
 
     def kind(self, case):
